@@ -265,3 +265,60 @@ func BlobCopy(k int) int {
 	x.a = y.b
 	return y.a[7] + x.b[7]*3 + x.a[0] + y.tag
 }
+
+// ---- a snapshot copied before later element / field stores and a call on the original ----
+
+type hsub struct {
+	id  int
+	sub [2]int
+}
+
+type hcnt struct {
+	n    int
+	hist [4]int
+	tag  hsub
+}
+
+func (c *hcnt) total() int {
+	return c.n + c.hist[0] + c.hist[1] + c.hist[2] + c.hist[3] + c.tag.id + c.tag.sub[0] + c.tag.sub[1]
+}
+
+func snapElem(x, i int) (hcnt, int) {
+	var o hcnt
+	o.hist[i] = x
+	v := o
+	o.hist[i] = x + 100
+	return v, o.total()
+}
+
+// the copy made before an array-element store keeps the old element
+func SnapElemStore(x int, i int) int {
+	c, r := snapElem(x, i&3)
+	return c.hist[i&3]*7 + r
+}
+
+func snapNestedElem(x, i int) (hcnt, int) {
+	var o hcnt
+	o.tag.sub[i] = x
+	v := o
+	o.tag.sub[i] = x + 100
+	return v, o.total()
+}
+
+func SnapNestedElemStore(x int, i int) int {
+	c, r := snapNestedElem(x, i&1)
+	return c.tag.sub[i&1]*7 + r
+}
+
+func snapNestedField(x int) (hcnt, int) {
+	var o hcnt
+	o.tag.id = x
+	v := o
+	o.tag.id = x + 100
+	return v, o.total()
+}
+
+func SnapNestedFieldStore(x int) int {
+	c, r := snapNestedField(x)
+	return c.tag.id*7 + r
+}
